@@ -9,18 +9,18 @@ import (
 	"github.com/bronlabs/bron-crypto/pkg/mpc"
 	"github.com/bronlabs/bron-crypto/pkg/mpc/dkg/gennaro"
 	"github.com/bronlabs/bron-crypto/pkg/mpc/dkg/trusteddealer"
-	"github.com/bronlabs/bron-crypto/pkg/mpc/signatures/schnorr/lindell22"
-	"github.com/bronlabs/bron-crypto/pkg/mpc/signatures/schnorr/lindell22/signing"
-	schnorrpok "github.com/bronlabs/bron-crypto/pkg/proofs/dlog/schnorr"
-	vanilla "github.com/bronlabs/bron-crypto/pkg/signatures/schnorrlike/schnorr"
 	"github.com/bronlabs/bron-crypto/pkg/mpc/session"
 	"github.com/bronlabs/bron-crypto/pkg/mpc/sharing"
 	"github.com/bronlabs/bron-crypto/pkg/mpc/sharing/scheme/kw"
 	"github.com/bronlabs/bron-crypto/pkg/mpc/sharing/vss/feldman"
 	"github.com/bronlabs/bron-crypto/pkg/mpc/sharing/vss/pedersen"
+	"github.com/bronlabs/bron-crypto/pkg/mpc/signatures/schnorr/lindell22"
+	"github.com/bronlabs/bron-crypto/pkg/mpc/signatures/schnorr/lindell22/signing"
 	"github.com/bronlabs/bron-crypto/pkg/proofs/dlog/batch_schnorr"
+	schnorrpok "github.com/bronlabs/bron-crypto/pkg/proofs/dlog/schnorr"
 	"github.com/bronlabs/bron-crypto/pkg/proofs/sigma/compiler"
 	"github.com/bronlabs/bron-crypto/pkg/proofs/sigma/compiler/fiatshamir"
+	vanilla "github.com/bronlabs/bron-crypto/pkg/signatures/schnorrlike/schnorr"
 
 	"verif/engine/symalg"
 )
@@ -492,6 +492,98 @@ func C04Cases(tier string, seed int64) []Case {
 					Sym:  func(e *SymEnv) { c04Lindell22(e, p, Q, dev, k) }, MustReach: []string{"fault-injected"}})
 			}
 		}
+	}
+	cases = append(cases, c04RedistributeCases(tier)...)
+	return cases
+}
+
+type redistConfig struct {
+	From, To Policy
+	Prev     []sharing.ID
+	Anchored bool
+}
+
+func c04RedistributeCases(tier string) []Case {
+	var cases []Case
+	t23 := thresholdPolicy(2, []sharing.ID{1, 2, 3})
+	cnf3 := cnfPolicy([]int{0b001, 0b110}, []sharing.ID{1, 2, 3})
+	cfgs := []redistConfig{
+		{t23, t23, []sharing.ID{1, 2, 3}, false},                                     // refresh
+		{t23, t23, []sharing.ID{2, 3}, false},                                        // recovery of 1, no anchor
+		{t23, t23, []sharing.ID{2, 3}, true},                                         // recovery of 1, anchored
+		{t23, cnf3, []sharing.ID{1, 3}, true},                                        // redistribution to a structure with multi-row holders
+		{cnf3, thresholdPolicy(2, []sharing.ID{2, 3, 5}), []sharing.ID{1, 2}, false}, // newcomer 5, no anchor
+		{t23, cnfPolicy([]int{0b0011, 0b1100, 0b0101}, []sharing.ID{1, 2, 3, 4}), []sharing.ID{1, 2}, true},
+	}
+	if tier == "thorough" {
+		cfgs = append(cfgs,
+			redistConfig{thresholdPolicy(3, []sharing.ID{2, 3, 5, 7}), thresholdPolicy(2, []sharing.ID{1, 2, 3}), []sharing.ID{2, 3, 7}, false},
+			redistConfig{t23, thresholdPolicy(3, []sharing.ID{2, 3, 5, 7}), []sharing.ID{1, 2, 3}, true},
+			redistConfig{cnf3, cnf3, []sharing.ID{1, 3}, false},
+		)
+	}
+	for ci, cfg := range cfgs {
+		c := cfg
+		toAS, err := c.To.Build()
+		if err != nil {
+			continue
+		}
+		nextIDs := sortedIDs(toAS.Shareholders().List())
+		devs := c.Prev
+		for di, dev := range devs {
+			anchor := sharing.ID(0)
+			if c.Anchored {
+				for _, id := range c.Prev {
+					if id != dev {
+						anchor = id
+						break
+					}
+				}
+			}
+			var faults []redistFault
+			faults = append(faults, redistFault{Kind: "r1-nonzero-zero-dealing", Deviator: dev, Recipient: 0, Index: 0}, redistFault{Kind: "forged-shard", Deviator: dev, Recipient: 0, Index: 0})
+			if di == 0 || tier == "thorough" {
+				for _, rc := range c.Prev {
+					if rc != dev {
+						faults = append(faults, redistFault{Kind: "r1u-zero-share", Deviator: dev, Recipient: rc, Index: 0})
+					}
+				}
+				for _, rc := range nextIDs {
+					if rc == dev {
+						continue
+					}
+					faults = append(faults, redistFault{Kind: "r2u-share", Deviator: dev, Recipient: rc, Index: 0}, redistFault{Kind: "r2u-share", Deviator: dev, Recipient: rc, Index: 1},
+						redistFault{Kind: "r2u-share-extended", Deviator: dev, Recipient: rc, Index: 0}, redistFault{Kind: "r2u-share-truncated", Deviator: dev, Recipient: rc, Index: 0})
+				}
+				for idx := 0; idx < 2; idx++ {
+					faults = append(faults, redistFault{Kind: "r1b-zero-vector", Deviator: dev, Recipient: 0, Index: idx}, redistFault{Kind: "r2b-next-vector", Deviator: dev, Recipient: 0, Index: idx},
+						redistFault{Kind: "r2b-prev-vector", Deviator: dev, Recipient: 0, Index: idx}, redistFault{Kind: "r2b-zero-vector", Deviator: dev, Recipient: 0, Index: idx})
+				}
+			}
+			for _, ft := range faults {
+				fl := ft
+				an := anchor
+				cases = append(cases, Case{ID: fmt.Sprintf("C04/redistribute/cfg%d:%s→%s/prev=%s/anchor=%d/%s", ci, c.From.Name, c.To.Name, setName(c.Prev), an, fl),
+					Desc: map[string]any{"protocol": "redistribute", "from": c.From.Name, "to": c.To.Name, "previous_holders": c.Prev, "anchor": an, "fault": fl, "offset": "symbolic δ≠0"},
+					Sym:  func(e *SymEnv) { c04Redistribute(e, c.From, c.To, c.Prev, an, fl) }})
+			}
+		}
+	}
+	// zero-sharing faults inside Lindell22 signing, three cosigners, deviator at every position
+	pol := thresholdPolicy(2, idPools[1][:3])
+	Q := sortedIDs(pol.IDs)
+	for _, dev := range Q {
+		d := dev
+		cases = append(cases, Case{ID: fmt.Sprintf("C04/lindell22/%s/quorum=%s/dev=%d/r1-nonzero-zero-dealing", pol.Name, setName(Q), d),
+			Desc: map[string]any{"protocol": "lindell22", "policy": pol.Name, "quorum": Q, "deviator": d, "fault": "self-consistent dealing of a non-zero value in the zero-sharing sub-protocol", "offset": "symbolic δ≠0"},
+			Sym:  func(e *SymEnv) { c04LindellZero(e, pol, Q, d, "r1-nonzero-zero-dealing", 0) }, MustReach: []string{"fault-injected"}})
+		rc := Q[0]
+		if rc == d {
+			rc = Q[1]
+		}
+		cases = append(cases, Case{ID: fmt.Sprintf("C04/lindell22/%s/quorum=%s/dev=%d/r1u-zero-share/rcpt=%d", pol.Name, setName(Q), d, rc),
+			Desc: map[string]any{"protocol": "lindell22", "policy": pol.Name, "quorum": Q, "deviator": d, "recipient": rc, "fault": "zero share shifted", "offset": "symbolic δ≠0"},
+			Sym:  func(e *SymEnv) { c04LindellZero(e, pol, Q, d, "r1u-zero-share", rc) }, MustReach: []string{"fault-injected"}})
 	}
 	return cases
 }
